@@ -432,6 +432,7 @@ type Specs struct {
 	Locks     map[string]*LockSpec
 	Fields    map[string]*FieldSpec
 	Chans     map[string]*ChanSpec
+	ChanClassOf map[string]string // heap origin -> channel class of every non-nil channel stored there
 	ObjInvs   map[string][]*Clause
 	FieldDefaults map[string]*FieldSpec
 	Classes   map[string]*ChanClass
@@ -757,6 +758,16 @@ func (sp *Specs) readFile(path string) error {
 			f := strings.Fields(head)
 			if len(f) < 2 {
 				return fail("bad chan")
+			}
+			if f[1] == "class" {
+				if len(f) < 3 {
+					return fail("chan <origin> class <name>")
+				}
+				if sp.ChanClassOf == nil {
+					sp.ChanClassOf = map[string]string{}
+				}
+				sp.ChanClassOf[f[0]] = f[2]
+				continue
 			}
 			cs := &ChanSpec{Origin: f[0], Kind: f[1]}
 			if len(f) > 2 {
